@@ -365,6 +365,11 @@ theorem all_sound (hx : ExtOk ext) (hp : ProgOk Φ Gg prog) (n : Nat) : AllSound
           refine binary_case ops ext prog Φ Gg n ih .plus l r (.arr s) (.arr s) (.arr s) hl hr (fun _ _ _ h => h) ?_ hok
           intro S' st' vl vr hk' h1 h2
           exact apply_arrCat ops ext hk' s vl vr h1 h2
+        | arrRep l r s hl hr =>
+          refine binary_case ops ext prog Φ Gg n ih .asterisk l r (.arr s) .num (.arr s) hl hr (no_sc (by simp [isLogic]) _ _) ?_ hok
+          intro S' st' vl vr hk' h1 h2
+          obtain ⟨y, rfl⟩ := h2.num_inv
+          exact apply_arrRep ops ext hk' s vl y h1
         | idxArr l i _ hl hi =>
           exact two_case ops ext prog Φ Gg n ih l i _ .num t hl hi (fun st' a b => indexVal ops st' a b)
             (fun S' st' vl vr hk' h1 h2 => index_arr ops hk' t vl vr h1 h2) hok
